@@ -177,6 +177,9 @@ package types
 //@ callsite update [own-state-this-header] dollar_header == as(header, *Header) && dollar_store == store
 //@ ensures [validated] result2 == nil ==> ncalls("checkValidity") == 1 && callsok("checkValidity") && ncalls("update") == 1 && callsok("update")
 //@ ensures [returns-update] result2 == nil ==> as(result0, *ClientState) == callres("update", 0) && as(result1, *ConsensusState) == callres("update", 1)
+// who sealed a block is forgotten only by update() when the record leaves the window of the last N/2 blocks - never as
+// a side effect of pruning an expired consensus state (the trusting period has nothing to do with that window)
+//@ ensures [only-update-forgets-signers] ncalls("DeleteSigner") == 0
 
 // ======================= C15: client creation / upgrade from a governance proposal never panics in EndBlock =========
 // (tier ii of DESIGN section 8 C15: "nopanic dryrun" accepts a panic site whose guard depends on the proposal content
